@@ -65,7 +65,7 @@ EXT_OPS = ["rebuild_B", "rebuild_B", "set_metric", "set_metric", "copy_copy", "d
 
 
 @st.composite
-def history(draw, classes=None, max_dim=3, max_ops=30, same_class_pairs=True, extended=False):
+def history(draw, classes=None, max_dim=3, max_ops=30, same_class_pairs=True, extended=False, metric_ops=False):
     spec = draw(zoo.system_spec(classes=classes or dyn.WEIGHTED_CLASSES, max_dim=max_dim, allow_down=True))
     n = spec["dim"]
     # second system object sharing the states: same class with different parameters, or another class
@@ -83,7 +83,7 @@ def history(draw, classes=None, max_dim=3, max_ops=30, same_class_pairs=True, ex
         specB = dict(spec, metric=draw(zoo.metric_spec(n, ["scaled", "diag", "dense", "chol_lower", "eig"])))
         b_from = draw(st.sampled_from(["copy", "deepcopy", "pickle"]))
     ops = []
-    pool_ops = OPS + EXT_OPS if extended else OPS
+    pool_ops = OPS + EXT_OPS if extended else (OPS + ["set_metric", "adapt_metric"] if metric_ops else OPS)
     for _ in range(draw(st.integers(3, max_ops))):
         kind = draw(st.sampled_from(pool_ops))
         op = {"op": kind, "i": draw(st.integers(0, 7)), "j": draw(st.integers(0, 63))}
@@ -95,6 +95,14 @@ def history(draw, classes=None, max_dim=3, max_ops=30, same_class_pairs=True, ex
                 continue
             ops.append(op)
             ops.append({"op": "call_all", "i": op["i"], "j": 0, "sys": "B"})
+            continue
+        if kind == "adapt_metric":
+            op["sys"] = draw(st.sampled_from(["A", "B"]))
+            op["adapter"] = draw(st.sampled_from(["var", "covar"]))
+            op["seed"] = draw(st.integers(0, 2**31))
+            ops.append({"op": "call_all", "i": op["i"], "j": 0, "sys": op["sys"]})
+            ops.append(op)
+            ops.append({"op": "call_all", "i": op["i"], "j": 0, "sys": op["sys"]})
             continue
         if kind == "set_metric":
             op["sys"] = draw(st.sampled_from(["A", "B"]))
